@@ -36,6 +36,9 @@ func runC07(c *Check, tier string) {
 	// a failed restore is not remembered as done, and a record never names a digest that was not stored
 	ruleLoadedMarkAfterLoads(c, "R07o")
 	ruleRecordOnlyAfterStore(c, "R07p")
+	ruleDeferredResultNotClobbered(c, "R07q", "output", "output/handlers", "caching", "caching/backends", "execution", "loading", "locking")
+	ruleStoreReaderFresh(c, "R07r")
+	rulePooledBufferReset(c, "R07s")
 	// a build killed while it held the workspace lock must not block the next one
 	if li := findLocker(c, "R07j"); li != nil {
 		ruleR10b(c, li, "R07j", false)
